@@ -377,9 +377,8 @@ def run_shard(cases, sub_seed, vidx=0):
     return res
 
 
+REPLAY_BY_RERUN = True     # (see runner.run_property: the recorded tier / seed workload is re-executed)
+
+
 def replay(witness):
-    res = ShardResult()
-    print(witness)
-    res.evaluations = 1
-    res.inconclusive.append("C20 witnesses carry the argv and both outcomes; re-run the check to reproduce")
-    return res
+    raise NotImplementedError("replayed by re-running the recorded workload")
